@@ -340,7 +340,7 @@ def run_sm(pid, tier, seed, replay, t0, extra_cov=None, extra_viol=0, extra_rc=0
     if not replay:
         import tracecheck
         rnd = [s_ for s_ in scs if not s_["id"].startswith("tlc-")]
-        tv = tracecheck.validate(rnd, log_path, wd, name="trace." + pid, prop=pid, max_runs=300 if tier == "quick" else None)
+        tv = tracecheck.validate(rnd, log_path, wd, name="trace." + pid, prop=pid, max_runs=300 if tier == "quick" else 2500)
         bad = len(tv["rejected"]) + len(tv["drift"])
         if bad:
             first_bad = (tv["rejected"] + tv["drift"])[0]
